@@ -90,7 +90,22 @@ def lemma_zero_state():
     return _prove(step_bv(z3.BitVecVal(0, 16), z3.BitVecVal(0, 8)) == 0)
 
 
-LEMMAS = {"res-iff": lemma_res_iff, "lin": lemma_lin, "inj": lemma_inj, "b3": lemma_b3, "zero-state": lemma_zero_state}
+def lemma_table_step():
+    """the table-driven byte update used by crcmod equals the bit-serial step:
+       step(s, b) == T[(s >> 8) ^ b] ^ ((s << 8) & 0xFF00)   with   T[i] == step(i << 8, 0)   (all states, all octets)"""
+    s = z3.BitVec("s", 16)
+    b = z3.BitVec("b", 8)
+    idx = z3.Extract(15, 8, s) ^ b
+    t_entry = step_bv(z3.Concat(idx, z3.BitVecVal(0, 8)), z3.BitVecVal(0, 8))
+    return _prove(step_bv(s, b) == (t_entry ^ (s << 8)))
+
+
+def table_py():
+    """the 256-entry table of the table-driven implementation, computed from the bit-serial step"""
+    return [step_py(i << 8, 0) for i in range(256)]
+
+
+LEMMAS = {"table-step": lemma_table_step, "res-iff": lemma_res_iff, "lin": lemma_lin, "inj": lemma_inj, "b3": lemma_b3, "zero-state": lemma_zero_state}
 
 
 def prove(name):
@@ -129,4 +144,7 @@ def native_check(name, seed=0, samples=20000):
         return True
     if name == "zero-state":
         return step_py(0, 0) == 0
+    if name == "table-step":
+        t = table_py()
+        return all(step_py(s_, b_) == (t[(s_ >> 8) ^ b_] ^ ((s_ << 8) & 0xFF00)) for s_ in range(0, 65536, 7) for b_ in range(256))
     raise KeyError(name)
